@@ -3703,6 +3703,12 @@ func (r *JournalReader) Next() (err error) {
 	if r.offset == 0 {
 		r.sectorSize = binary.BigEndian.Uint32(hdr[20:])
 
+		// Like SQLite, ignore a journal whose header holds an impossible sector
+		// size. A zero sector size would otherwise never advance the reader.
+		if r.sectorSize < 32 || r.sectorSize > 65536 || r.sectorSize&(r.sectorSize-1) != 0 {
+			return io.EOF
+		}
+
 		// Use page size from journal reader, if set to 0.
 		pageSize := binary.BigEndian.Uint32(hdr[24:])
 		if pageSize == 0 {
